@@ -6,6 +6,22 @@ import Proofs.Slice
 namespace Pydap.Handler
 open Pydap
 
+@[simp] theorem wordBytes_eq (rep : StrRep) (s : Str) : wordBytes rep s = strBytes s := by
+  cases rep <;> rfl
+
+@[simp] theorem xValR_eq (rep : StrRep) (t : Xdr.Ty) (v : Val) : xValR rep t v = xVal t v := by
+  cases v <;> cases t <;> simp [xValR, xVal]
+
+theorem flatMap_congr_mem {α β : Type} {l : List α} {f g : α → List β} (h : ∀ x ∈ l, f x = g x) :
+    l.flatMap f = l.flatMap g := by
+  induction l with
+  | nil => rfl
+  | cons a as ih =>
+    simp only [List.flatMap_cons]
+    rw [h a (by simp), ih (fun x hx => h x (by simp [hx]))]
+
+theorem xValR_fun (rep : StrRep) (t : Xdr.Ty) : xValR rep t = xVal t := funext (xValR_eq rep t)
+
 /-! ### `Except` plumbing -/
 
 theorem mapM_ok_of_forall {α β : Type} (f : α → Except Exc β) :
